@@ -528,6 +528,17 @@ def run(chk: Check, eng: Engine) -> None:
     chk.rule("R03-b", "Fitness.fitness() of the hard-constraint fitness classes is exactly 1.0 when solved == total / all values are 1.0", floor=2)
     chk.rule("R03-c", "code outside the evaluator compares the evaluator's fitness with the threshold unchanged", floor=1)
     chk.rule("R03-d", "a tree is recorded as reported only together with its yield; nobody else edits that record", floor=2)
+    chk.rule("R03-e", "a comparison that holds scores exactly 1.0 (interval interpretation of the scoring helper)", floor=1)
+    from . import common_fitness as _cf
+    _sites, _lst = _cf.score_sites(eng, eng.cls("fandango.constraints.comparison", "ComparisonConstraint"))
+    for _st in _sites:
+        if _st.via == "literal":
+            continue
+        if _st.holding.iv == (1.0, 1.0) and not _st.holding.other and not _st.holding.none:
+            chk.ok("R03-e", _st.fn.fq, _st.line, f"holding comparison scores exactly 1.0 via {_st.via}")
+        else:
+            chk.bad("R03-e", eng.relfile(_st.fn), _st.line, _st.fn.fq, f"when the comparison holds, the score from {_st.via} ranges over {_st.holding}, not exactly 1.0",
+                    "a satisfied comparison is recorded as failing (verdict `all(score == 1.0)`): a tree satisfying every constraint is never reported", keyparts="holding-score-not-one")
     chk.not_decided.append("that success of arbitrary user expressions coincides with fitness()==1.0 beyond the accumulator shapes of R02-c/R07-c")
 
     from .c02 import classification_status
@@ -691,7 +702,10 @@ from ..mutants import M  # noqa: E402
 
 _EV = "src/fandango/evolution/evaluation.py"
 _FT = "src/fandango/constraints/fitness.py"
+_CMP = "src/fandango/constraints/comparison.py"
 MUTANTS = [
+    M("holding-comparison-scored-by-distance", _CMP, "        if self._operator.compare(left, right):\n            return 1.0, NopSuggestion()\n",
+      "        if self._operator.compare(left, right) and self._operator == Comparison.EQUAL:\n            return 1.0, NopSuggestion()\n", "R03-e"),
     M("seen-before-threshold", _EV, "        if fitness >= self._expected_fitness and key not in self._solution_set:\n            self._solution_set.add(key)\n            yield individual\n",
       "        if key not in self._solution_set:\n            self._solution_set.add(key)\n            if fitness >= self._expected_fitness:\n                yield individual\n", "R03-d"),
     M("share-arithmetic-hard", _EV, "            fitness = fitness * len(self._hard_constraints)\n",
@@ -710,6 +724,7 @@ MUTANTS = [
       "                self.fandango.average_population_fitness * 1.0001\n                < self.fandango.evaluator.expected_fitness", "R03-c"),
 ]
 TWINS = [
+    M("twin-holding-score-rounds-to-one", _CMP, "            return 1.0, NopSuggestion()\n", "            return 1.0 - 1e-17, NopSuggestion()\n", None),
     M("twin-extract-acceptance-predicate", _EV, "        if fitness >= self._expected_fitness and key not in self._solution_set:\n            self._solution_set.add(key)\n            yield individual\n",
       "        if self._reaches_threshold(fitness) and key not in self._solution_set:\n            self._solution_set.add(key)\n            yield individual\n", None,
       more=(("    def evaluate_population(self, population: list[DerivationTree]) -> Generator[\n        DerivationTree,\n        None,\n        list[tuple[DerivationTree, float, list[FailingTree], Suggestion]],\n    ]:\n        evaluation = []",
